@@ -285,6 +285,17 @@ def function(ip: Interp, fn: PyConst, args, kwargs, n):
         return S.UNIONS['Outcome'].o_none
     if name == 'o_ok':
         return S.UNIONS['Outcome'].o_ok(ip.coerce_sort(args[0], S.RECORDS['RuleResultR'], n))
+    if name == 'forall_keys':
+        d, f = args
+        ks = d.f['okeys'] if isinstance(d, PRec) and 'okeys' in d.f else d.f['mkeys']
+        ksort = ks.sort().basis() if S.is_seq(ks) else ks.sort().domain()
+        k = z3.FreshConst(ksort, 'key')
+        body = ip.call_closure(f, None, [k], {}, n)
+        body = ip.truth(body, n)
+        return z3.ForAll([k], body if z3.is_expr(body) else z3.BoolVal(body))
+    if name == 'is_suffix':
+        a, b = args
+        return z3.SuffixOf(a, b)
     if name == 'grown':
         new, old = args
         b = ip.seq_from_end(old, 1)
